@@ -3,8 +3,10 @@ package drivers
 import (
 	"encoding/json"
 	"net"
+	"runtime"
 	"sync"
 	"time"
+	"verifharness/sctpmem"
 
 	"verifharness/memnet"
 
@@ -81,9 +83,13 @@ func runSerialCollect(sc int, c *serialCase, emit func(serialEv)) {
 	}()
 	conns := make([]feeder, c.Conns+1)
 	var ln *memnet.Listener
-	if c.Via == "server" {
+	if c.Via == "server" || c.Via == "server+wt" {
 		ln = memnet.NewListener()
-		go (&diam.Server{Handler: mux, Dict: dict.Default}).Serve(ln)
+		srv := &diam.Server{Handler: mux, Dict: dict.Default}
+		if c.Via == "server+wt" {
+			srv.WriteTimeout = 100 * time.Millisecond // bounds writes, not handlers
+		}
+		go srv.Serve(ln)
 	}
 	// via "tcp": the library dials (diam.DialTimeout -> dial) a loopback TCP listener of the test,
 	// which then plays the peer over the accepted socket; without loopback the in-memory dial path is used
@@ -113,9 +119,16 @@ func runSerialCollect(sc int, c *serialCase, emit func(serialEv)) {
 				continue
 			}
 		}
+		if c.Via == "sctp" {
+			// a multi-stream association (in-memory backend); the peer uses one non-zero stream
+			as := sctpmem.New()
+			conns[k] = sctpFeeder{as, 3}
+			diam.NewConn(diam.NewSCTPConnVerif(as), "10.0.0.2:3868", mux, dict.Default)
+			continue
+		}
 		mc := memnet.NewConn()
 		conns[k] = mc
-		if c.Via == "server" {
+		if c.Via == "server" || c.Via == "server+wt" {
 			ln.Push(mc)
 		} else {
 			diam.NewConn(mc, "10.0.0.2:3868", mux, dict.Default)
@@ -190,7 +203,11 @@ func runSerialCollect(sc int, c *serialCase, emit func(serialEv)) {
 			}
 			// negative observation (one-sided grace period): the next message of the held
 			// connection has arrived in full; its handler must not start
-			time.Sleep(30 * time.Millisecond)
+			if c.Via == "server+wt" {
+				time.Sleep(180 * time.Millisecond) // longer than the server's WriteTimeout
+			} else {
+				time.Sleep(30 * time.Millisecond)
+			}
 			close(gate)
 		case <-time.After(2 * time.Second):
 			close(gate)
@@ -240,6 +257,119 @@ type feeder interface {
 	Feed([]byte)
 	Close() error
 }
+type sctpFeeder struct {
+	as     *sctpmem.Assoc
+	stream uint16
+}
+
+func (s sctpFeeder) Feed(b []byte) { s.as.Feed(s.stream, b) }
+func (s sctpFeeder) Close() error  { return s.as.Close() }
+
+// runSerialWStall: as many connections as there are Ps have their handlers stuck inside WriteTo (the peers
+// stopped reading); one more connection must still be served and answered.
+func runSerialWStall(sc int, emit func(serialEv)) {
+	p := runtime.GOMAXPROCS(0)
+	n := p + 1
+	var mu sync.Mutex
+	var evs []serialEv
+	seq := 0
+	rec := func(ev string, cc, i int) {
+		seq++
+		evs = append(evs, serialEv{Ev: ev, Sc: sc, Seq: seq, C: cc, I: i, Msgs: []int{}})
+	}
+	done := make([]bool, n+1)
+	entered := make(chan int, 4*n)
+	mux := diam.NewServeMux()
+	mux.HandleFunc("ALL", func(dc diam.Conn, m *diam.Message) {
+		cc := int(m.Header.HopByHopID / 100)
+		mu.Lock()
+		rec("enter", cc, 1)
+		mu.Unlock()
+		entered <- cc
+		m.Answer(2001).WriteTo(dc)
+		mu.Lock()
+		rec("exit", cc, 1)
+		if cc >= 0 && cc < len(done) {
+			done[cc] = true
+		}
+		mu.Unlock()
+	})
+	stop := make(chan struct{})
+	go func() {
+		for {
+			select {
+			case <-mux.ErrorReports():
+			case <-stop:
+				return
+			}
+		}
+	}()
+	gate := make(chan struct{})
+	conns := make([]*memnet.Conn, n+1)
+	for k := 1; k <= n; k++ {
+		conns[k] = memnet.NewConn()
+		if k <= p {
+			conns[k].OnWrite = func(int, []byte) memnet.WriteOutcome { return memnet.WriteOutcome{N: -1, Gate: gate} }
+		}
+		diam.NewConn(conns[k], "10.0.0.2:3868", mux, dict.Default)
+	}
+	for k := 1; k <= p; k++ {
+		conns[k].Feed(appMsg(272, 4, true, uint32(k*100+1)))
+	}
+	deadline := time.After(2 * time.Second)
+	for got := 0; got < p; {
+		select {
+		case <-entered:
+			got++
+		case <-deadline:
+			got = p
+		}
+	}
+	conns[n].Feed(appMsg(272, 4, true, uint32(n*100+1)))
+	ok := false
+	for t0 := time.Now(); time.Since(t0) < 2*time.Second; time.Sleep(time.Millisecond) {
+		mu.Lock()
+		ok = done[n]
+		mu.Unlock()
+		if ok {
+			break
+		}
+	}
+	if !ok {
+		mu.Lock()
+		rec("blocked", n, 0)
+		mu.Unlock()
+	}
+	close(gate)
+	for t0 := time.Now(); time.Since(t0) < 2*time.Second; time.Sleep(time.Millisecond) {
+		mu.Lock()
+		all := true
+		for k := 1; k <= n; k++ {
+			all = all && done[k]
+		}
+		mu.Unlock()
+		if all {
+			break
+		}
+	}
+	mu.Lock()
+	rec("end", 0, 0)
+	final := append([]serialEv(nil), evs...)
+	mu.Unlock()
+	close(stop)
+	for k := 1; k <= n; k++ {
+		conns[k].Close()
+	}
+	ms := make([]int, n)
+	for i := range ms {
+		ms[i] = 1
+	}
+	emit(serialEv{Ev: "reset", Sc: sc, Conns: n, Msgs: ms, Case: &serialCase{Conns: n, Msgs: 1, Pattern: "wstall", Via: "dial", Flavour: "req"}})
+	for _, e := range final {
+		emit(e)
+	}
+}
+
 type sockFeeder struct{ c net.Conn }
 
 func (s sockFeeder) Feed(b []byte) { s.c.Write(b) }
@@ -283,6 +413,12 @@ func Serial(a Args) error {
 		}(i)
 	}
 	wg.Wait()
+	// handlers stuck in WriteTo on as many connections as there are Ps
+	tmp := &blockOut{}
+	runSerialWStall(len(cases)+1, func(e serialEv) { tmp.evs = append(tmp.evs, e) })
+	for _, e := range tmp.evs {
+		out.Emit(e)
+	}
 	return nil
 }
 
